@@ -835,8 +835,8 @@ Proof.
   induction ps as [|p ps IH]; intros fuel Hf Hall; [destruct fuel; reflexivity|].
   apply Forall_cons in Hall as [Hp Hall]. destruct fuel as [|f]; [cbn in Hf; lia|].
   cbn [map concat]. unfold frame at 1. unfold le32. cbn [app parse_frames].
-  rewrite le32_roundtrip by lia. rewrite Nat2Z.id.
-  assert (Hle : (length p <=? length (p ++ concat (map frame ps)))%nat = true).
-  { apply Nat.leb_le. rewrite app_length. lia. }
-  rewrite Hle. rewrite drop_app, take_app. rewrite IH; [reflexivity|cbn in Hf; lia|exact Hall].
+  rewrite le32_roundtrip by lia.
+  assert (Hle : (Z.of_nat (length p) <=? Z.of_nat (length (p ++ concat (map frame ps)))) = true).
+  { apply Z.leb_le. rewrite app_length. lia. }
+  rewrite Hle. rewrite Nat2Z.id. rewrite drop_app, take_app. rewrite IH; [reflexivity|cbn in Hf; lia|exact Hall].
 Qed.
